@@ -1083,6 +1083,7 @@ func (y *ifFeatureEval) next() string {
 
 type When struct {
 	parent     Meta
+	also       *When
 	expr       string
 	desc       string
 	ref        string
@@ -1091,6 +1092,26 @@ type When struct {
 
 func (y *When) Expression() string {
 	return y.expr
+}
+
+// Also is a further condition that has to hold as well: a node with a when of its own that
+// came in through a uses or an augment with a when is there only when both hold
+func (y *When) Also() *When {
+	return y.also
+}
+
+// and returns a copy of this condition with other added to the conditions that have to hold
+func (y *When) and(other *When) *When {
+	if other == nil {
+		return y
+	}
+	both := *y
+	if y.also != nil {
+		both.also = y.also.and(other)
+	} else {
+		both.also = other
+	}
+	return &both
 }
 
 type Must struct {
